@@ -124,7 +124,7 @@ ADDENDA = {
  "C09": " Also from the fully loaded universes; a path over an ID-tagged link (placeholder link replaced by a link whose ID may be in use); delete of the ID tag. An accepted operation that the model leaves open must still leave a coherent namespace (model-free check, also for replaced lines); `*` as value of the ID tag; a further line of a group that another group lists. Also searched from a state in which a placeholder segment survives only because a group lists the identifier.",
  "C11": " Post-operations `refused` (line refused after its first side was resolved) and `in-out` (line over placeholders added and removed). Post-operations rm-line (the judged edge removed by instance) and a path over the judged link arriving before / after it.",
  "C12": " Family twopaths: two paths walking one link in opposite directions, link written in either form, segments bare or with sequence/tags, all arrival orders, complement of the stored link taken after every arrival. The algebra / graph / twopaths families again at validation levels 0 and 3.",
- "C13": " Entry points `clones` (cloned Line objects) and `carry` (refused lines dropped, the caller carries on: what the Gfa holds must be a document of the version it reports). carry also at level 0 with the exactly-once clause only; level 0 x entry list (thorough: list, inc) for every multiset without a VN header (mixed content is refused with VersionError at level 0 too).",
+ "C13": " Entry points `clones` (cloned Line objects) and `carry` (refused lines dropped, the caller carries on: what the Gfa holds must be a document of the version it reports). carry also at level 0 with the exactly-once clause only; level 0 x entry list (multisets of up to 3 lines, both tiers) for every multiset without a VN header (mixed content is refused with VersionError at level 0 too).",
  "C14": " The families again at validation levels 0/2/3; GFA2 twins with the sides of the E lines exchanged and with identical parallel E lines. One probe graph per IUPAC letter and case on a segment that is reverse-complemented; GFA2 decorations (one read with fragments on several segments, header, comment, custom record). Segment variant with LN on some sequence-carrying segments only.",
  "C15": " Links / containments with ID tags; opposite-direction parallel links with I/D overlaps; the graph is judged as built. After the operation a new tag on a copy and a tag of that name and another type on the original are independent.",
  "C16": " Also from the fully loaded graph-shaped universes (`@full`); refused operations are judged; a query that raises on a well-formed document is a violation. A model-free namespace-coherence clause on every accepted operation; a second containment edge in the GFA2 universe.",
